@@ -79,10 +79,16 @@ br_hkdf_produce(br_hkdf_context *hc,
 			br_hmac_context hmac_ctx;
 			unsigned char x;
 
-			hc->chunk_num ++;
-			if (hc->chunk_num == 256) {
+			/*
+			 * The limit is 255 chunks. The counter must not
+			 * go beyond it: later calls would see it wrap
+			 * around (as a byte) and produce the output
+			 * stream again from its start.
+			 */
+			if (hc->chunk_num >= 255) {
 				return tlen;
 			}
+			hc->chunk_num ++;
 			x = hc->chunk_num;
 			br_hmac_init(&hmac_ctx, &hc->u.prk_ctx, 0);
 			if (x != 1) {
